@@ -53,7 +53,7 @@ func main() {
 		o.Seed, _ = strconv.Atoi(s)
 	}
 	if o.Secs == 0 {
-		o.Secs = 10
+		o.Secs = 15
 		if o.Tier == "thorough" {
 			o.Secs = 60
 		}
